@@ -95,6 +95,15 @@ def gen_fault_spec(rng):
                       for _ in range(weighted(rng, [(1, 3), (2, 1)]))]
     spec = {"envs": groups, "learners": learners, "evaluators": evaluators, "seed": weighted(rng, [(1, 2), (rng.randrange(2, 50), 1)]),
             "quiet": True, "description": None, "flavour": "sim"}
+    if n_env > 1 and rng.random() < 0.2:
+        # ONE filter object in every environment's pipeline (what Environments(...).scale() gives), environments with different statistics
+        for i, g in enumerate(groups):
+            if g["src"][0] == "tagged":
+                g["src"][1]["ctx_shift"] = i
+        spec["joint_ops"] = [weighted(rng, [(["scale", {"shift": weighted(rng, [("min", 2), ("mean", 1), (0, 1)]),
+                                                       "scale": weighted(rng, [("minmax", 2), ("std", 1), ("maxabs", 1)]),
+                                                       "using": weighted(rng, [(None, 2), (5, 1)])}], 3),
+                                            (["impute", {"stats": ["mean"], "indicator": False, "using": None}], 1)])]
     if "modrng" in json.dumps(spec["learners"]):
         # (a run nested inside an environment's read seeds the module-level generator - as every run does for its own evaluations - in the
         #  middle of the outer evaluation; together with a learner that draws from that generator the outcome depends on where the read
